@@ -176,6 +176,8 @@ theorem execOp_sameC (s : State) (me : Nat) (op : Op) (rest : List Op)
     cases hw : cancelR s t with
     | mk s1 b => rw [hw] at this; simp only []; exact this.finish _ _ _ _
   | exit => simp only [execOp]; exact SameC.refl s
+  | throw => simp only [execOp]; exact (Woke.abort s).sameC
+  | rcleanup => simp only [execOp]; exact (Woke.abort s).sameC
   | yield => simp only [execOp]; repeat' split
              all_goals samec
   | wait => simp only [execOp]; repeat' split
